@@ -44,6 +44,8 @@ typ = z3.Function("typ", Ref, IntS)
 born = z3.Function("born", Ref, IntS)
 deq = z3.Function("deq", Ref, Ref, BoolS)  # dataclass structural equality (==)
 
+truthy_obj = z3.Function("truthy_obj", Ref, BoolS)  # bool(obj) for objects whose class defines __len__/__bool__ (or is unknown)
+
 EMPTY_TAGS = z3.EmptySet(Tag)
 
 _seq_sorts: dict[str, "SeqSortInfo"] = {}
@@ -205,6 +207,16 @@ class TRefT(TD):
         self.name = f"ref[{cls.name if cls is not None else 'Any'}{'?' if nullable else ''}]"
 
     def truthy(self, sv):
+        # bool(obj): not None, and -- when the object's class (or, for Any, possibly its class) defines __len__ /
+        # __bool__ -- whatever that method says (an uninterpreted predicate: code must not rely on it)
+        cls = self.cls
+        special = cls is None
+        if cls is not None:
+            for c in [cls] + list(getattr(cls, "_subclasses_cache", [])):
+                if any(m in k.methods for k in c.mro for m in ("__len__", "__bool__")):
+                    special = True
+        if special:
+            return z3.And(sv.z != NONE, truthy_obj(sv.z))
         return sv.z != NONE
 
 
